@@ -10,13 +10,15 @@ from .lib.mir import AnchorLost
 
 CONFIGS_QUICK = ["A"]
 CONFIGS_THOROUGH = ["A", "R"]
-TECHNIQUE = "entry-by-entry comparison of the compiled calendar tables with their defining formulae; path-min/max count of unchecked writes vs capacity on the built MIR"
-LEVEL_TEXT = ("Decides clauses C20-a/b: YEAR_DELTAS (401 entries), YEAR_TO_FLAG (400) and OL_TO_MDL (733), read from the evaluated constants of the compiled "
-              "crate, equal the Gregorian-calendar formulae they stand for (leap-year counts, weekday/leap flag of 1 January under this source's own "
-              "Of::weekday decoding, ordinal->month/day deltas from the month lengths); the weekday and month name tables equal RFC 9110's day-name/month "
-              "lists in the order the index functions assume; into_imf_fixdate performs exactly 29 unchecked single-byte writes on every path into its "
-              "29-byte buffer, each followed by the index increment, and itoa at most 1+MAX pushes into a buffer of capacity 1+MAX. Decides these clauses, "
-              "not the day/year arithmetic or the digit extraction for all inputs.")
+TECHNIQUE = ('entry-by-entry comparison of the compiled calendar tables with their defining formulae; path-min/max count of unchecked writes vs capacity on the '
+             'built MIR; def-use ordering of table reads against reassignment of their index variable')
+LEVEL_TEXT = ('Decides clauses C20-a/b/c: YEAR_DELTAS (401 entries), YEAR_TO_FLAG (400) and OL_TO_MDL (733), read from the evaluated constants of the compiled crate,'
+              " equal the Gregorian-calendar formulae they stand for (leap-year counts, weekday/leap flag of 1 January under this source's own Of::weekday decoding, "
+              "ordinal->month/day deltas from the month lengths); the weekday and month name tables equal RFC 9110's day-name/month lists in the order the index "
+              'functions assume; into_imf_fixdate performs exactly 29 unchecked single-byte writes on every path into its 29-byte buffer, each followed by the index '
+              'increment, and itoa at most 1+MAX pushes into a buffer of capacity 1+MAX; in the date arithmetic a calendar-table entry read for a mutable year '
+              'variable is never used after that variable was reassigned (the year borrow in Date::from_days re-reads the table). Decides these clauses, not the '
+              'day/year arithmetic or the digit extraction for all inputs.')
 
 
 def run(ck, progs):
@@ -27,6 +29,7 @@ def run(ck, progs):
         ck.guard("C20-a TABLE", lambda: c20a(ck, prog))
         ck.guard("C20-b BOUND", lambda: c20b(ck, prog))
         ck.guard("C20-b BOUND", lambda: c20b_hex(ck, prog))
+        ck.guard("C20-c ORDER table read", lambda: c20c(ck, prog))
     ck.config = None
 
 
@@ -265,3 +268,94 @@ def c20b_hex(ck, prog):
             if not (lab == 0 and last is not None and last[0] == "bin" and last[1][1] == "Le"):
                 ok = False
     ck.ob(R, "hex:residual-arm", ok, c1.loc(None), "" if ok else "unreachable_unchecked in the digit map is not the residual arm of the two range tests", how="residual arm of 0..=9 | 10..=15")
+
+
+def tree_calls(f, op, depth=10, seen=None):
+    """the calls whose results take part in computing `op` (through single-definition temporaries, arithmetic and casts)"""
+    out = []
+    if depth <= 0:
+        return out
+    steps = f.origin(op)
+    if not steps:
+        return out
+    last = steps[-1]
+    if last[0] == "call":
+        out.append(last[1])
+        for a in last[1].args:
+            out += tree_calls(f, a, depth - 1)
+    elif last[0] == "bin":
+        out += tree_calls(f, last[1][2], depth - 1) + tree_calls(f, last[1][3], depth - 1)
+    elif last[0] == "un":
+        out += tree_calls(f, last[1][2], depth - 1)
+    return out
+
+
+def operands_of(st_or_term):
+    """operands read by a statement's rvalue or by a terminator"""
+    ops = []
+
+    def walk(x):
+        if isinstance(x, list):
+            if len(x) == 2 and x[0] in ("c", "m") and isinstance(x[1], list) and len(x[1]) == 2 and isinstance(x[1][0], int):
+                ops.append(x)
+                return
+            for y in x:
+                walk(y)
+    if st_or_term.get("k") == "=":
+        walk(st_or_term["r"])
+    elif st_or_term.get("k") == "call":
+        walk(st_or_term.get("args", []))
+    elif st_or_term.get("k") == "assert":
+        pass
+    return ops
+
+
+def c20c(ck, prog):
+    """a calendar table read indexed by a mutable year/month variable is used only while that variable still has the
+    value it was read with: no assignment to the index variable lies between the read and a use of the value read"""
+    R = "C20-c ORDER table read"
+    n = 0
+    for f in prog.fns.values():
+        if f.crate != "ohkami_lib" or not f.key.startswith("ohkami_lib::time::"):
+            continue
+        reads = []
+        for c in f.calls():
+            if c.name in ("get_unchecked", "index", "get") and len(c.args) >= 2:
+                st = f.origin(c.args[1])
+                if st and st[-1][0] == "multi" and not st[-1][2] and all(x[0] == "via" and (x[1][0].startswith("cast") or x[1][0] == "use") for x in st[:-1]):
+                    reads.append((c, st[-1][1]))
+        if not reads:
+            continue
+        uses = []  # (bb, stmt index or inf, operand)
+        for bi in sorted(f.live_blocks()):
+            b = f.blocks[bi]
+            if b["cleanup"]:
+                continue
+            for si, st in enumerate(b["st"]):
+                if st["k"] == "=" and (st["p"][0] == 0 or f.single_def(st["p"][0]) is None or st["p"][1]):
+                    for op in operands_of(st):
+                        uses.append((bi, si, op))
+            if b["t"]["k"] == "call":
+                for op in operands_of(b["t"]):
+                    uses.append((bi, 10 ** 6, op))
+        for c, y in reads:
+            n += 1
+            name = next((nm for nm, ps in f.vars.items() if any(p[0] == y and not p[1] for p in ps)), "_%d" % y)
+            after = f.reachable_from(c.target) if c.target is not None else set()
+            redefs = [(dbb, si if si is not None else 10 ** 6) for (dbb, si, dk, payload) in f.defs().get(y, []) if not f.is_cleanup(dbb) and dbb in after]
+            stale = None
+            for (ub, ui, op) in uses:
+                if ub not in after:
+                    continue
+                if not any(x.bb == c.bb and x.callee == c.callee for x in tree_calls(f, op)):
+                    continue
+                for (dbb, dsi) in redefs:
+                    if (ub == dbb and ui > dsi) or (ub != dbb and ub in f.reachable_from(dbb)):
+                        stale = (ub, ui, dbb)
+            ok = stale is None
+            tbl = decision.describe_deep(f, c.args[0], 1)
+            ck.ob(R, "%s:read#%d[%s]" % (f.key.rsplit("::", 2)[-2] + "::" + f.name, [r[0].bb for r in reads].index(c.bb), name), ok, f.loc(c.sp),
+                  "" if ok else "%s reads a table entry for `%s`, then assigns `%s` (%s), and afterwards still uses the entry read for the old value (%s): the day count is adjusted with the delta of the wrong year"
+                  % (f.key, name, name, f.loc(f.blocks[stale[2]]["t"].get("sp")), f.loc(f.blocks[stale[0]]["t"].get("sp"))),
+                  how="no assignment to `%s` between the read and the uses of the value read" % name)
+    ck.floor(R, "table reads indexed by a mutable variable", n, 1)
